@@ -31,7 +31,7 @@ def job_optimize(n, mode, mu_given, start_given, seed=0, timeout_s=10.0):
 
 def jobs(tier, seed):
     from . import C11_e1 as C
-    t = 10.0 if tier == "quick" else 60.0
+    t = 30.0 if tier == "quick" else 90.0
     js = []
     dims = [1, 2, 3] if tier == "quick" else [1, 2, 3, 4]
     for n in dims:
